@@ -256,7 +256,7 @@ def loop_progress_parse_qsl(P, R):
     from . import c18 as m
     f = P.func('ombott.request_pkg.helpers:parse_qsl')
     g, rd = f.cfg, f.rd
-    whiles = [n for n in walk_shallow(f.node) if isinstance(n, ast.While)]
+    whiles = [n for n in walk_shallow(f.node) if isinstance(n, ast.While) and enclosing(n, ast.While) is None]
     R.require(len(whiles) == 1, 'parse_qsl: scan loop not found')
     loop = whiles[0]
     cp = compare_parts(loop.test)
